@@ -6,15 +6,22 @@ spec  : ParityAlg.tla - (1) transcription of how the code arrives at every formu
         H, S, A, d/dk, real and imaginary products, pair tensors, Onsager; MC_ParityAlg: one state per formula,
         Declared = Derived, derivative / product / involution laws; mutated declarations must be rejected.
 bind  : exact - every TLC state is replayed on the real formula classes instantiated on a real Data_K (all variants of
-        internal/external terms, spin-current types, SDCT parts): (factor, conj, transpose_axes) compared with the state;
-        the objects' declarations, data_K.covariant() declarations and the *measured* signs are recorded and validated by
-        TLC (ParityAlgRec.tla).
+        internal/external terms, spin-current types, SDCT parts).  A declaration is compared BY ITS EFFECT on a generic probe
+        tensor of the formula's rank (complex probe for the complex pair formulas, real probe for real band traces), not by
+        the attribute values of the Transform object; the same for the transformation every DynamicCalculator attaches to its
+        result (calculator-level overrides).  The effects, the data_K.covariant() declarations that catalogued formulas
+        consume (Ham, SS) and the *measured* signs are recorded and validated by TLC (ParityAlgRec.tla).
 num   : value at -k versus declared transformation of the value at k on time-reversal symmetric (spinless real and
         spinful, T = i sigma_y K) and inversion-symmetrised random models with all external-term matrices, per band,
-        per block of bands, per degenerate pair (doubled models); tolerance 1e-8 x scale; the comparison is reduced to a
-        sign in {+1, -1} which is then an exact datum checked by TLC.
+        per block of bands, per degenerate pair (doubled models), sea x rest blocks for the pair formulas; the complex
+        result of every DynamicCalculator at -k versus the declared transformation of its result at k; formula classes
+        that are not in the catalogue are found by introspection and measured against their own declaration;
+        tolerance 1e-8 x scale; the comparison is reduced to a sign in {+1, -1} which is then an exact datum checked by TLC.
 """
 import copy
+import inspect
+import itertools
+import os
 import random
 import numpy as np
 
@@ -23,108 +30,197 @@ from ..common import Report, MachineryError, seed, quiet
 
 PROPS = {
     "C08": dict(level="exploration",
-                technique="TLC on ParityAlg.tla (code's declaration mechanism transcribed vs parities derived from the physical composition of each formula; product/derivative/involution laws) + exact replay of the declaration table on the real formula objects + TLC validation of recorded declarations and of signs measured at k / -k on symmetric random models",
-                text="TLC decides for every catalogued formula (56 classes of formula/covariant.py, basic.py, elementary.py, sdct.py, calculators/dynamic.py) which "
-                     "transformation under time reversal and inversion its composition requires and that the code's way of declaring it yields exactly that; the real objects' "
-                     "declared (factor, conj, transpose_axes) are compared exactly with the table, and the value of every formula at -k is compared with the declared "
-                     "transformation of its value at k on symmetric random models (floating point, 1e-8).",
+                technique="TLC on ParityAlg.tla (code's declaration mechanism transcribed vs parities derived from the physical composition of each formula; product/derivative/involution laws) + replay of the declaration table on the real formula objects and dynamic calculators (effect of the declared Transform on a probe tensor) + TLC validation of recorded declarations and of signs measured at k / -k on symmetric random models",
+                text="TLC decides for every catalogued formula (56 names of formula/covariant.py, basic.py, elementary.py, sdct.py, calculators/dynamic.py; ~110 option variants) which "
+                     "transformation under time reversal and inversion its composition requires and that the code's way of declaring it yields exactly that; the effect of the real objects' "
+                     "declared transformTR/transformInv on a probe tensor is compared exactly with the table (also for the transformation that each DynamicCalculator attaches to its result), "
+                     "and the value of every formula variant at -k is compared with the declared transformation of its value at k on symmetric random models (floating point, 1e-8), as is the "
+                     "complex result of every DynamicCalculator. Formula classes outside the catalogue are found by introspection and measured against their own declaration. "
+                     "quick: 1 model and 1 k-point per symmetry mode (6 modes, one of them three-dimensional); thorough: 4 models x 3 k-points.",
                 note="spec decides: the declaration table (exact, discrete) and the algebra (derivative flips both parities, products multiply, imaginary products flip TR, pair tensors "
                      "transpose, all transforms are involutions). implementation-vs-implementation numerics: value(-k) against the declared transform of value(k) on TR-symmetric and "
-                     "inversion-symmetric random dyadic models; the floating comparison only classifies a sign, which TLC then checks against the derived table. Mixed-parity intermediate "
-                     "tensors (tildeFab, tildeHab, tildeHab_d, ...) and unused entries of get_transform_TR (FF, GG) are outside the property (not used by a calculator as final formula); "
-                     "spin Hall types ryoo/qiao exist only with external terms.",
+                     "inversion-symmetric random dyadic models; the floating comparison only classifies a sign; a wrong or undefined sign is a violation of the float comparison itself, the signs "
+                     "that pass are then checked by TLC against the derived table. Identity and Formula_dyn_ident (constants) are exempt from the 'measured with a definite sign' requirement. "
+                     "Mixed-parity intermediate tensors (tildeHab, tildeHab_d, ... : measured, reported in part 'intermediate_formulas', never a violation) and entries of "
+                     "get_transform_TR/Inv that no catalogued formula consumes (FF, GG, rotAA, ...: part 'covariant_table_observation') are outside the property; "
+                     "spin Hall types ryoo/qiao exist only with external terms. Known finding Formula_SDCT_surf_II(sym=False): the declaration (odd_trans_102) agrees with the derivation of "
+                     "the specification; it is the VALUE that is wrong (the formula antisymmetrises axes (b,c) instead of (a,b) because swapaxes(3,4) is written for two band indices "
+                     "while this class has one) - so TLC accepts the declaration and the float comparison reports the value.",
                 ref="DESIGN.md 3.3 (ParityAlg), 5 (row C08), 2.3"),
 }
 
+TAG = f"_p{os.getpid()}"
 TOL = 1e-8
 MINGAP = 0.05
 INVS = ("DeclaredWellFormed", "DeclaredMatchesDerived", "ConsistentSums", "DerivativeFlips", "ProductsMultiply", "DeclaredInvolutions", "AllClassesPresent")
 ALLKEYS = ("Ham", "AA", "BB", "CC", "FF", "GG", "OO", "SS", "SH", "SA", "SHA", "SR", "SHR")
 NOSPIN_KEYS = ("Ham", "AA", "BB", "CC", "FF", "GG", "OO")
+# formula classes that carry a declaration but are mixed-parity intermediates, never the final formula of a calculator
+INTERMEDIATE = {"tildeFab", "tildeFab_d", "tildeHab", "tildeHGab", "tildeHab_d", "tildeHGab_d"}
+COV_CONSUMED = ("Ham", "SS")            # names that catalogued formulas take their declaration from (Same(Cov(...)))
+COV_OBSERVED = ("CC", "OO", "FF", "GG", "rotAA", "rotAAab", "CCab_antisym", "AA", "BB")
 
 
 def cfg(mutate=""):
     return "SPECIFICATION Spec\nCONSTANTS\n  Mutate = \"%s\"\n" % mutate + "".join(f"INVARIANT {i}\n" for i in INVS) + "CHECK_DEADLOCK FALSE\n"
 
 
+def lib_raised(ex):
+    """-> "module.function" if the exception was raised inside wannierberri (a violation), None if by the harness's own call"""
+    from ..main import raised_by_code_under_test
+    return raised_by_code_under_test(ex)
+
+
 # ------------------------------------------------------------------------------------------------ registry
-def registry():
-    """-> list of dict(name (catalogue key), label, make(data_K) -> object carrying transformTR/transformInv and the values,
-    kind 'ln' | 'dyn', spin (needs SS), transforms(obj) -> (tTR, tInv))"""
+def _modules():
     from wannierberri.formula import covariant as F
     from wannierberri.formula import basic as B
     from wannierberri.formula import elementary as EL
     from wannierberri.formula import sdct as SD
     from wannierberri.calculators import dynamic as DY
+    return dict(F=F, B=B, EL=EL, SD=SD, DY=DY)
+
+
+def registry(skipped=None):
+    """-> list of dict(name (catalogue key), label, cls, make(data_K) -> object carrying transformTR/transformInv and the values,
+    kind 'ln' | 'dyn', spin (needs SS), transforms(obj) -> (tTR, tInv)).  Classes that do not exist (any more) are skipped."""
+    mods = _modules()
+    DY = mods["DY"]
+    skipped = {} if skipped is None else skipped
     reg = []
 
-    def add(name, label, make, kind="ln", spin=False, transforms=None, nonadditive=False):
-        reg.append(dict(name=name, label=label, make=make, kind=kind, spin=spin, transforms=transforms, nonadditive=nonadditive))
-    plain = dict(Identity=F.Identity, Eavln=EL.Eavln, Hamiltonian=F.Hamiltonian, InvMass=EL.InvMass, DerWln=EL.DerWln, Der3E=F.Der3E,
-                 VelVel=F.VelVel, VelVelVel=F.VelVelVel, MassVel=F.MassVel, MassMass=F.MassMass, VelMassVel=F.VelMassVel)
-    for n, c in plain.items():
-        add(n, n, (lambda d, c=c: c(d)))
+    def add(name, label, mod, build, kind="ln", spin=False, transforms=None, nonadditive=False, clsname=None):
+        c = getattr(mods[mod], clsname or name, None)
+        if c is None:
+            skipped[label] = f"class {clsname or name} not found in {mods[mod].__name__}"
+            return
+        reg.append(dict(name=name, label=label, cls=c, make=(lambda d, c=c, build=build: build(c, d)), kind=kind, spin=spin, transforms=transforms,
+                        nonadditive=nonadditive))
+    for n, mod in dict(Identity="F", Eavln="EL", Hamiltonian="F", InvMass="EL", DerWln="EL", Der3E="F", VelVel="F", VelVelVel="F", MassVel="F",
+                       MassMass="F", VelMassVel="F").items():
+        add(n, n, mod, lambda c, d: c(d))
     for ext in (False, True):
-        add("Velocity", f"Velocity(external_terms={ext})", (lambda d, ext=ext: F.Velocity(d, external_terms=ext)))
-    for n, c in dict(Spin=F.Spin, DerSpin=F.DerSpin, Der2Spin=F.Der2Spin, VelSpin=F.VelSpin).items():
-        add(n, n, (lambda d, c=c: c(d)), spin=True)
-    ie = dict(Omega=F.Omega, DerOmega=F.DerOmega, Der2Omega=F.Der2Omega, Morb_H=F.Morb_H, Morb_Hpm=F.Morb_Hpm, morb=F.morb,
-              DerMorb_H=F.DerMorb_H, DerMorb=F.DerMorb, Dermorb=F.Dermorb, Der2Morb_H=F.Der2Morb_H, Der2Morb=F.Der2Morb, Der2morb=F.Der2morb,
-              VelOmega=F.VelOmega, VelHplus=F.VelHplus, OmegaOmega=F.OmegaOmega, OmegaHplus=F.OmegaHplus, emcha_surf=F.emcha_surf,
-              NLDrude_Z_orb_Hplus=F.NLDrude_Z_orb_Hplus, NLDrude_Z_orb_Omega=F.NLDrude_Z_orb_Omega,
-              QuantumMetric_ab=F.QuantumMetric_ab, DerQuantumMetric_ab_d=F.DerQuantumMetric_ab_d, VelDQM=F.VelDQM,
-              tildeFc=B.tildeFc, tildeFc_d=B.tildeFc_d)
+        add("Velocity", f"Velocity(external_terms={ext})", "F", lambda c, d, ext=ext: c(d, external_terms=ext))
+    for n in ("Spin", "DerSpin", "Der2Spin", "VelSpin"):
+        add(n, n, "F", lambda c, d: c(d), spin=True)
+    ie = dict(Omega="F", DerOmega="F", Der2Omega="F", Morb_H="F", Morb_Hpm="F", morb="F", DerMorb_H="F", DerMorb="F", Dermorb="F", Der2Morb_H="F",
+              Der2Morb="F", Der2morb="F", VelOmega="F", VelHplus="F", OmegaOmega="F", OmegaHplus="F", emcha_surf="F", NLDrude_Z_orb_Hplus="F",
+              NLDrude_Z_orb_Omega="F", QuantumMetric_ab="F", DerQuantumMetric_ab_d="F", VelDQM="F", tildeFc="B", tildeFc_d="B")
     nonadd = {"Morb_H", "Morb_Hpm", "morb", "DerMorb_H", "DerMorb", "Dermorb", "Der2Morb_H", "Der2Morb", "Der2morb", "tildeHGc", "tildeHGc_d", "Der_morb"}
-    for n, c in ie.items():
+    for n, mod in ie.items():
         for ext in (False, True):
-            add(n, f"{n}(external_terms={ext})", (lambda d, c=c, ext=ext: c(d, external_terms=ext)), nonadditive=n in nonadd)
-    add("Morb_Hpm", "Morb_Hpm(sign=0,external_terms=True)", lambda d: F.Morb_Hpm(d, sign=0, external_terms=True), nonadditive=True)
-    add("tildeFc", "tildeFc(FF_rotAA=True,external_terms=True)", lambda d: B.tildeFc(d, FF_rotAA=True, external_terms=True))
-    for n, c in dict(tildeHGc=B.tildeHGc, tildeHGc_d=B.tildeHGc_d, Der_morb=B.Der_morb).items():
+            add(n, f"{n}(external_terms={ext})", mod, lambda c, d, ext=ext: c(d, external_terms=ext), nonadditive=n in nonadd)
+    add("Morb_Hpm", "Morb_Hpm(sign=0,external_terms=True)", "F", lambda c, d: c(d, sign=0, external_terms=True), nonadditive=True)
+    add("tildeFc", "tildeFc(FF_rotAA=True,external_terms=True)", "B", lambda c, d: c(d, FF_rotAA=True, external_terms=True))
+    for n in ("tildeHGc", "tildeHGc_d", "Der_morb"):
         for ext in (False, True):
-            add(n, f"{n}(CCab_antisym=True,external_terms={ext})", (lambda d, c=c, ext=ext: c(d, CCab_antisym=True, external_terms=ext)), nonadditive=True)
-    for n, c in dict(OmegaS=F.OmegaS, NLDrude_Z_spin=F.NLDrude_Z_spin).items():
+            add(n, f"{n}(CCab_antisym=True,external_terms={ext})", "B", lambda c, d, ext=ext: c(d, CCab_antisym=True, external_terms=ext), nonadditive=True)
+    for n in ("OmegaS", "NLDrude_Z_spin"):
         for ext in (False, True):
-            add(n, f"{n}(external_terms={ext})", (lambda d, c=c, ext=ext: c(d, external_terms=ext)), spin=True)
+            add(n, f"{n}(external_terms={ext})", "F", lambda c, d, ext=ext: c(d, external_terms=ext), spin=True)
     for typ, exts in (("simple", (False, True)), ("ryoo", (True,)), ("qiao", (True,))):
         for ext in exts:
-            add("SpinVelocity", f"SpinVelocity({typ},external_terms={ext})", (lambda d, typ=typ, ext=ext: F.SpinVelocity(d, typ, external_terms=ext)), spin=True)
-            add("SpinOmega", f"SpinOmega({typ},external_terms={ext})", (lambda d, typ=typ, ext=ext: F.SpinOmega(d, spin_current_type=typ, external_terms=ext)), spin=True)
-            add("Formula_SHC", f"Formula_SHC({typ},external_terms={ext})", (lambda d, typ=typ, ext=ext: DY.Formula_SHC(d, SHC_type=typ, external_terms=ext)), kind="dyn", spin=True)
-    add("Formula_dyn_ident", "Formula_dyn_ident", lambda d: DY.Formula_dyn_ident(d), kind="dyn")
+            add("SpinVelocity", f"SpinVelocity({typ},external_terms={ext})", "F", lambda c, d, typ=typ, ext=ext: c(d, typ, external_terms=ext), spin=True)
+            add("SpinOmega", f"SpinOmega({typ},external_terms={ext})", "F", lambda c, d, typ=typ, ext=ext: c(d, spin_current_type=typ, external_terms=ext), spin=True)
+            add("Formula_SHC", f"Formula_SHC({typ},external_terms={ext})", "DY", lambda c, d, typ=typ, ext=ext: c(d, SHC_type=typ, external_terms=ext), kind="dyn", spin=True)
+    add("Formula_dyn_ident", "Formula_dyn_ident", "DY", lambda c, d: c(d), kind="dyn")
     for ext in (False, True):
-        add("Formula_OptCond", f"Formula_OptCond(external_terms={ext})", (lambda d, ext=ext: DY.Formula_OptCond(d, external_terms=ext)), kind="dyn")
-        add("ShiftCurrentFormula", f"ShiftCurrentFormula(sc_eta=1/8,external_terms={ext})", (lambda d, ext=ext: DY.ShiftCurrentFormula(d, sc_eta=0.125, external_terms=ext)), kind="dyn")
+        add("Formula_OptCond", f"Formula_OptCond(external_terms={ext})", "DY", lambda c, d, ext=ext: c(d, external_terms=ext), kind="dyn")
+        add("ShiftCurrentFormula", f"ShiftCurrentFormula(sc_eta=1/8,external_terms={ext})", "DY", lambda c, d, ext=ext: c(d, sc_eta=0.125, external_terms=ext), kind="dyn")
 
         def inj_tr(obj):
             c = DY.InjectionCurrent(Efermi=np.array([0.0]), omega=np.array([1.0]))
             return c.transformTR, c.transformInv
-        add("InjectionCurrent", f"InjectionCurrent/InjectionCurrentFormula(external_terms={ext})", (lambda d, ext=ext: DY.InjectionCurrentFormula(d, external_terms=ext)), kind="dyn", transforms=inj_tr)
-        for cn, c in dict(Formula_SDCT_sea_I=SD.Formula_SDCT_sea_I, Formula_SDCT_sea_II=SD.Formula_SDCT_sea_II,
-                          Formula_SDCT_surf_I=SD.Formula_SDCT_surf_I, Formula_SDCT_surf_II=SD.Formula_SDCT_surf_II).items():
+        add("InjectionCurrent", f"InjectionCurrent/InjectionCurrentFormula(external_terms={ext})", "DY", lambda c, d, ext=ext: c(d, external_terms=ext), kind="dyn",
+            transforms=inj_tr, clsname="InjectionCurrentFormula")
+        for cn in ("Formula_SDCT_sea_I", "Formula_SDCT_sea_II", "Formula_SDCT_surf_I", "Formula_SDCT_surf_II"):
             for sym in (True, False):
-                add(cn, f"{cn}(sym={sym},external_terms={ext})", (lambda d, c=c, sym=sym, ext=ext: c(d, sym=sym, external_terms=ext)), kind="dyn")
+                add(cn, f"{cn}(sym={sym},external_terms={ext})", "SD", lambda c, d, sym=sym, ext=ext: c(d, sym=sym, external_terms=ext), kind="dyn")
     for sym in (True, False):
-        add("Formula_SDCT_sea_I", f"Formula_SDCT_sea_I(sym={sym},S_terms=True,external_terms=True)", (lambda d, sym=sym: SD.Formula_SDCT_sea_I(d, sym=sym, S_terms=True, external_terms=True)), kind="dyn", spin=True)
-        add("Formula_SDCT_surf_II", f"Formula_SDCT_surf_II(sym={sym},S_terms=True,external_terms=True)", (lambda d, sym=sym: SD.Formula_SDCT_surf_II(d, sym=sym, S_terms=True, external_terms=True)), kind="dyn", spin=True)
+        add("Formula_SDCT_sea_I", f"Formula_SDCT_sea_I(sym={sym},S_terms=True,external_terms=True)", "SD",
+            lambda c, d, sym=sym: c(d, sym=sym, S_terms=True, external_terms=True), kind="dyn", spin=True)
+        add("Formula_SDCT_surf_II", f"Formula_SDCT_surf_II(sym={sym},S_terms=True,external_terms=True)", "SD",
+            lambda c, d, sym=sym: c(d, sym=sym, S_terms=True, external_terms=True), kind="dyn", spin=True)
     return reg
+
+
+def unlisted_formulas(reg):
+    """formula classes of the package that are not in the registry and can be built from a Data_K alone (by introspection)
+    -> list of registry-like entries (name = class name, label)"""
+    from wannierberri.formula import Formula
+    known = {e["cls"] for e in reg}
+    out = []
+    for mod in _modules().values():
+        for n, c in sorted(vars(mod).items()):
+            if not (inspect.isclass(c) and issubclass(c, Formula) and c.__module__ == mod.__name__) or c in known or n.startswith("_") or inspect.isabstract(c):
+                continue
+            out.append(dict(name=n, label=n, cls=c, kind=None, spin=False, transforms=None, nonadditive=False, unlisted=True,
+                            make=(lambda d, c=c: build_any(c, d))))
+    return out
+
+
+def build_any(c, d):
+    """try the constructor signatures that formula classes have"""
+    last = None
+    for kw in ({}, dict(external_terms=True), dict(sym=True), dict(sym=True, external_terms=True)):
+        try:
+            with quiet():
+                return c(d, **kw)
+        except TypeError as ex:
+            last = ex
+    raise last
 
 
 def variant_tag(e):
     """the options that select a different code path of the class (sym / spin-current type), without internal/external switches"""
     opts = e["label"][len(e["name"]):].strip("()").split(",")
-    keep = [o for o in opts if o and not o.startswith(("external_terms", "S_terms", "sc_eta", "CCab_antisym", "FF_rotAA"))]
+    keep = [o for o in opts if o and not o.startswith(("external_terms", "S_terms", "sc_eta", "CCab_antisym", "FF_rotAA", "/"))]
     return (":" + ",".join(keep)) if keep else ""
 
 
-def tdesc(t):
-    """Transform (or None) -> JSON-able [factor, conj, axes-string]"""
+# ------------------------------------------------------------------------------------------------ transforms by effect
+def apply_T(t, arr):
+    """Transform.__call__ on a copy (works for an in-place implementation and for one returning a new array)"""
+    a = np.array(arr, copy=True)
+    out = t(a)
+    return a if out is None else np.asarray(out)
+
+
+def canon_axes(perm):
+    perm = list(perm)
+    while perm and perm[0] == 0:
+        perm = [a - 1 for a in perm[1:]]
+    return "".join(str(a) for a in perm)
+
+
+def effect_desc(t, nd, cplx):
+    """(factor, conj, axes) of a Transform BY ITS EFFECT on a generic probe tensor of rank nd with one leading axis;
+    axes = the permutation as transpose_axes with leading fixed axes stripped ("10" = last two axes exchanged).
+    factor 0 = None (no declaration), factor 2 = cannot be applied / is not a signed (conjugating) permutation."""
     if t is None:
         return dict(factor=0, conj=False, axes="")
-    ax = "" if t.transpose_axes is None else "".join(str(int(a)) for a in t.transpose_axes)
-    if getattr(t, "swap_axes", None) is not None:
-        ax = "swap" + "".join(str(int(a)) for a in t.swap_axes)
-    return dict(factor=int(t.factor), conj=bool(t.conj), axes=ax)
+    shape = (2,) + (3,) * nd
+    N = int(np.prod(shape))
+    X = np.arange(1, N + 1, dtype=float).reshape(shape)
+    if cplx:
+        X = X + 1j * (1000 + np.arange(1, N + 1, dtype=float).reshape(shape))
+    try:
+        Y = apply_T(t, X)
+    except Exception:  # noqa
+        return dict(factor=2, conj=False, axes="err")
+    for perm in itertools.permutations(range(nd)):
+        Z0 = X.transpose((0,) + tuple(1 + p for p in perm))
+        for cj in ((False, True) if cplx else (False,)):
+            Z1 = Z0.conj() if cj else Z0
+            for f in (1, -1):
+                if Y.shape == Z1.shape and np.array_equal(Y, f * Z1):
+                    return dict(factor=f, conj=cj, axes=canon_axes(perm))
+    return dict(factor=2, conj=False, axes="err")
+
+
+def table_desc(t, cplx):
+    """the specification's transform [factor, conj, axes] -> the same canonical form"""
+    return dict(factor=t["factor"], conj=bool(t["conj"]) and cplx, axes=canon_axes(t["axes"]))
 
 
 def tdesc_state(t):
@@ -164,12 +260,17 @@ def groups_for(nb, degenerate):
     return gs
 
 
+def kind_of(obj):
+    return "ln" if hasattr(obj, "trace") and hasattr(obj, "nn") else "dyn"
+
+
 def values(entry, obj, nb, degenerate):
     """-> list of (label, array with a leading axis of length 1)"""
     out = []
     allb = np.arange(nb)
     gs = groups_for(nb, degenerate)
-    if entry["kind"] == "ln":
+    kind = entry["kind"] or kind_of(obj)
+    if kind == "ln":
         for lab, inn in gs:
             v = obj.trace(0, inn, np.setdiff1d(allb, inn))
             out.append((f"{lab}{inn.tolist()}", np.array(v, dtype=float).reshape((1,) + np.shape(v))))
@@ -179,48 +280,117 @@ def values(entry, obj, nb, degenerate):
             for l2, i2 in base:
                 v = obj.trace_ln(0, i1, i2)
                 out.append((f"{l1}{i1.tolist()}x{i2.tolist()}", np.array(v).reshape((1,) + np.shape(v))))
+        # occupied block x empty block (what a dynamic calculator sums at T = 0) and the reverse
+        for lab, sea in gs:
+            if lab != "sea" or len(sea) == nb:
+                continue
+            rest = np.setdiff1d(allb, sea)
+            for a, b, nm in ((sea, rest, "sea_x_rest"), (rest, sea, "rest_x_sea")):
+                v = obj.trace_ln(0, a, b)
+                out.append((f"{nm}{a.tolist()}x{b.tolist()}", np.array(v).reshape((1,) + np.shape(v))))
     return out
 
 
-def classify(t, v1, v2):
-    """sign s with v2 = s * P(v1), P = conj/transposition part of t; returns (+1 | -1 | 0 = too small | None = neither, deviation, scale)"""
-    from wannierberri.symmetry.point_symmetry import Transform
-    P = Transform(factor=1, conj=t.conj, transpose_axes=t.transpose_axes)
-    e = P(np.array(v1).copy())
-    scale = max(1.0, float(np.abs(v1).max()), float(np.abs(v2).max()))
+def classify(t, v1, v2, relative=False):
+    """sign s with v2 = s * P(v1), P = conj/transposition part of t (found by effect: P = factor x t);
+    returns (+1 | -1 | 0 = too small | None = neither, deviation, scale, declared factor by effect)"""
+    v1, v2 = np.asarray(v1), np.asarray(v2)
+    d = effect_desc(t, v1.ndim - 1, np.iscomplexobj(v1))
+    if d["factor"] not in (1, -1):
+        return None, float("inf"), 1.0, d["factor"]
+    e = d["factor"] * apply_T(t, v1)
+    big0 = max(float(np.abs(v1).max()), float(np.abs(v2).max()))
+    scale = big0 if relative else max(1.0, big0)
     dp = float(np.abs(v2 - e).max())
     dm = float(np.abs(v2 + e).max())
-    big = max(float(np.abs(v1).max()), float(np.abs(v2).max())) > 1e-4 * scale
+    big = big0 > (1e-200 if relative else 1e-4 * scale)
     if not big:
-        return (0, min(dp, dm), scale) if min(dp, dm) <= TOL * scale else (None, min(dp, dm), scale)
+        return ((0, min(dp, dm), scale, d["factor"]) if min(dp, dm) <= TOL * max(scale, 1e-300) else (None, min(dp, dm), scale, d["factor"]))
     if dp <= TOL * scale:
-        return 1, dp, scale
+        return 1, dp, scale, d["factor"]
     if dm <= TOL * scale:
-        return -1, dm, scale
-    return None, min(dp, dm), scale
+        return -1, dm, scale, d["factor"]
+    return None, min(dp, dm), scale, d["factor"]
 
 
+# ------------------------------------------------------------------------------------------------ dynamic calculators
+FORMULA_NAME = {"InjectionCurrentFormula": "InjectionCurrent"}
+
+
+def dynamic_calculators(skipped):
+    """every concrete DynamicCalculator subclass of calculators/dynamic.py and calculators/sdct.py -> (name, class)"""
+    out = []
+    try:
+        from wannierberri.calculators import dynamic as DY
+        mods = [DY]
+        try:
+            from wannierberri.calculators import sdct as SC
+            mods.append(SC)
+        except ImportError:
+            pass
+        for mod in mods:
+            for n, c in sorted(vars(mod).items()):
+                if inspect.isclass(c) and issubclass(c, DY.DynamicCalculator) and c.__module__ == mod.__name__ and not inspect.isabstract(c) and not n.startswith("_"):
+                    out.append((n, c))
+    except Exception as ex:  # noqa
+        skipped["dynamic_calculators"] = f"{type(ex).__name__}: {ex}"[:200]
+    return out
+
+
+def make_calculator(c, Ef, om):
+    """instantiate with the documented arguments; a few classes need one more"""
+    kw = dict(Efermi=Ef, omega=om, kBT=0.1, smr_fixed_width=0.3)
+    last = None
+    for extra in ({}, dict(sc_eta=0.125)):
+        try:
+            return c(**kw, **extra)
+        except TypeError as ex:
+            last = ex
+    raise last
+
+
+def calculator_variant(calc):
+    kf = dict(getattr(calc, "kwargs_formula", {}) or {})
+    keep = []
+    if "sym" in kf:
+        keep.append(f"sym={kf['sym']}")
+    if "SHC_type" in kf:
+        keep.append(str(kf["SHC_type"]))
+    return (":" + ",".join(keep)) if keep else ""
+
+
+# ------------------------------------------------------------------------------------------------ check
 def check(pid, tier):
     rep = Report(pid, tier, "exploration")
+    try:
+        return _check(rep, tier)
+    except Exception:
+        if rep.violations:          # never lose what was already found
+            rep.finish()
+        raise
+
+
+def _check(rep, tier):
     thorough = tier == "thorough"
     rng = random.Random(seed() * 7907 + 8)
     import warnings
     warnings.filterwarnings("ignore")
     from . import kmodels as km
-    rep.rule("one TLC state per catalogued formula (56); a case = one real formula object (class x variant of its options) whose declared "
-             "(factor, conj, transpose_axes) is compared exactly with the state, or one (formula variant, symmetric random model, k-point, band group) "
-             "where value(-k) is compared with the declared transformation of value(k); distinct by (label, model seed, k, group)")
+    rep.rule("one TLC state per catalogued formula (56); a case = one real formula object (class x variant of its options) or dynamic calculator whose declared "
+             "transformation (by its effect on a probe tensor) is compared exactly with the state, or one (formula variant / calculator / unlisted formula class, symmetric random model, "
+             "k-point, band group) where value(-k) is compared with the declared transformation of value(k); distinct by (label, model seed, k, group)")
     rep.assume(f"numeric part: k-points with a gap between different multiplets below {MINGAP} are excluded (NonDegenerateK); data are dyadic rationals")
+    skipped = {}
 
     # ------------------------------------------------------------ spec
-    st = ftable.enumerate_states("MC_ParityAlg.tla", cfg(), "c08_parity")
+    st = ftable.enumerate_states("MC_ParityAlg.tla", cfg(), "c08_parity" + TAG, workers=4)
     ftable.spec_violation(rep, st, "c08_parity")
     rep.add_tlc("c08_parity", st)
     mism = tlc.printed(st["output"], "TABLE_MISMATCH")
     rep.part("c08_parity", get_transform_table_entries_not_matching_physical_parity=mism,
              note="observation only: these names are never consumed through covariant() by a calculator's final formula")
     for mu in (("DerOmega", "VelSpin", "Formula_OptCond", "emcha_surf") if thorough else ("VelSpin",)):
-        sv = tlc.run_tlc("MC_ParityAlg.tla", cfg(mu), f"c08_mut_{mu}", timeout=900)
+        sv = tlc.run_tlc("MC_ParityAlg.tla", cfg(mu), f"c08_mut_{mu}{TAG}", workers=2, timeout=900)
         if not sv.get("violation"):
             raise MachineryError(f"sensitivity self-test failed: flipped declaration of {mu} accepted ({sv.get('error')})")
         rep.part(f"c08_sensitivity_{mu}", violated=sv["violation"][1])
@@ -229,125 +399,282 @@ def check(pid, tier):
         raise MachineryError(f"dump has {len(table)} states, TLC reported {st['distinct']}")
 
     # ------------------------------------------------------------ spec -> code (exact): declarations of the real objects
-    reg = registry()
+    reg = registry(skipped)
     missing = set(table) - {e["name"] for e in reg}
     if missing:
-        raise MachineryError(f"catalogue entries without a real constructor: {sorted(missing)}")
+        skipped["catalogue_entries_without_a_class"] = sorted(missing)
+        if len(missing) > 5:
+            raise MachineryError(f"too many catalogue entries without a real constructor: {sorted(missing)}")
     unknown = {e["name"] for e in reg} - set(table)
     if unknown:
         raise MachineryError(f"registry entries missing in the catalogue: {sorted(unknown)}")
+    extra = unlisted_formulas(reg)
     mdecl = km.build(4242, nw=2, keys=ALLKEYS, spinful=True)
     dk0 = datak(mdecl.system(), [0.171875, 0.296875, 0])
     recs = []
+    usable = []
     for e in reg:
-        with quiet():
-            obj = e["make"](dk0)
-        tTR, tInv = get_transforms(e, obj)
-        got = dict(tr=tdesc(tTR), inv=tdesc(tInv))
+        try:
+            with quiet():
+                obj = e["make"](dk0)
+            tTR, tInv = get_transforms(e, obj)
+        except Exception as ex:  # noqa
+            site = lib_raised(ex)
+            if site is None:          # the harness's way of calling the constructor does not exist any more
+                skipped[e["label"]] = f"{type(ex).__name__}: {ex}"[:200]
+            else:
+                rep.violation(f"raises:{e['name']}:{type(ex).__name__}", dict(formula=e["label"], raised_in=site, error=f"{type(ex).__name__}: {ex}"[:300]))
+            continue
+        usable.append(e)
         s = table[e["name"]]
-        exp = dict(tr=tdesc_state(s["dTR"]), inv=tdesc_state(s["dInv"]))
+        cplx = e["kind"] == "dyn"
+        nd = int(getattr(obj, "ndim", max(len(s["dTR"]["axes"]), len(s["dInv"]["axes"]))))
+        got = dict(tr=effect_desc(tTR, nd, cplx), inv=effect_desc(tInv, nd, cplx))
+        exp = dict(tr=table_desc(s["dTR"], cplx), inv=table_desc(s["dInv"], cplx))
         rep.case(("decl", e["label"]))
         if s["kind"] != e["kind"]:
             raise MachineryError(f"kind mismatch for {e['name']}")
         if got != exp:
-            rep.violation(f"declared_transform:{e['name']}", dict(formula=e["label"], expected=exp, got=got))
-        recs.append(dict(kind="decl", name=e["name"], label=e["label"], **got))
+            rep.violation(f"declared_transform:{e['name']}", dict(formula=e["label"], probe_rank=nd, expected_effect=exp, got_effect=got))
+        # what TLC sees: the table's own notation when the effect is the same, the observed effect otherwise
+        recs.append(dict(kind="decl", name=e["name"], label=e["label"],
+                         tr=tdesc_state(s["dTR"]) if got["tr"] == exp["tr"] else got["tr"], inv=tdesc_state(s["dInv"]) if got["inv"] == exp["inv"] else got["inv"]))
+    reg = usable
+    if len(reg) < 80:
+        raise MachineryError(f"only {len(reg)} formula variants could be built")
     rep.sample(recs[0])
-    # data_K.covariant declarations
-    for name in ("Ham", "SS", "CC", "OO", "FF", "GG", "rotAA", "rotAAab", "CCab_antisym", "AA", "BB"):
+    # data_K.covariant declarations: the names catalogued formulas consume are validated, the others are observed
+    obs = {}
+    for name in COV_CONSUMED + COV_OBSERVED:
         for cd, gd in ((0, 0), (1, 0), (2, 0), (3, 0), (0, 1)):
             if name != "Ham" and cd == 3:
                 continue
-            c = dk0.covariant(name, commader=cd, gender=gd, save=False)
-            recs.append(dict(kind="cov", name=name, commader=cd, gender=gd, tr=tdesc(getattr(c, "transformTR", None)), inv=tdesc(getattr(c, "transformInv", None))))
-            rep.case(("cov", name, cd, gd))
+            try:
+                c = dk0.covariant(name, commader=cd, gender=gd, save=False)
+                d = dict(tr=effect_desc(getattr(c, "transformTR", None), 1 + cd + gd, False), inv=effect_desc(getattr(c, "transformInv", None), 1 + cd + gd, False))
+            except Exception as ex:  # noqa   private interface of Data_K
+                if name in COV_CONSUMED:
+                    skipped[f"covariant({name},{cd},{gd})"] = f"{type(ex).__name__}: {ex}"[:200]
+                else:
+                    obs[f"{name},{cd},{gd}"] = f"{type(ex).__name__}"
+                continue
+            if name in COV_CONSUMED:
+                recs.append(dict(kind="cov", name=name, commader=cd, gender=gd, **d))
+                rep.case(("cov", name, cd, gd))
+            else:
+                obs[f"{name},{cd},{gd}"] = [d["tr"]["factor"], d["inv"]["factor"]]
+    rep.part("covariant_table_observation", note="[TR factor, inversion factor] (0 = none) of data_K.covariant(name, commader, gender) for names no catalogued formula consumes; not compared",
+             **{k.replace(",", "_"): v for k, v in obs.items()})
+
+    # ------------------------------------------------------------ calculator-level declarations
+    calcs = dynamic_calculators(skipped)
+    calc_objs = []
+    for cn, cc in calcs:
+        try:
+            calc = make_calculator(cc, np.array([0.0]), np.array([1.0]))
+            fname = FORMULA_NAME.get(calc.Formula.__name__, calc.Formula.__name__)
+        except Exception as ex:  # noqa
+            site = lib_raised(ex)
+            if site is None:
+                skipped["calculator:" + cn] = f"{type(ex).__name__}: {ex}"[:200]
+            else:
+                rep.violation(f"raises:calculator:{cn}:{type(ex).__name__}", dict(calculator=cn, raised_in=site, error=f"{type(ex).__name__}: {ex}"[:300]))
+            continue
+        if fname not in table:
+            skipped["calculator:" + cn] = f"its formula {fname} is not catalogued"
+            continue
+        calc_objs.append((cn, cc, fname))
+    if calcs and len(calc_objs) < 5:
+        raise MachineryError(f"only {len(calc_objs)} dynamic calculators usable: {skipped}")
 
     # ------------------------------------------------------------ numeric: value(-k) vs declared transform of value(k)
     nseeds = 4 if thorough else 1
     nk = 3 if thorough else 1
-    modes = [("TR", False, False), ("TR", True, False), ("Inv", False, False), ("Inv", True, False), ("TR", False, True), ("Inv", False, True)]
+    # (symmetry, spinful, doubled, dimension of the model / of k)
+    modes = [("TR", False, False, 3), ("TR", True, False, 2), ("Inv", False, False, 2), ("Inv", True, False, 3 if thorough else 2),
+             ("TR", False, True, 2), ("Inv", False, True, 2)]
     signs = {}
+    usigns = {}
     failed = set()
     nclass = dict(plus=0, minus=0, small=0)
     worst = 0.0
-    for sym, spinful, doubled in modes:
+    interm = {}
+    calc_decl_done = set()
+    ncalc = 0
+    for sym, spinful, doubled, dim in modes:
         for isd in range(nseeds):
             sd = rng.randrange(1 << 30)
             keys = ALLKEYS if spinful else NOSPIN_KEYS
-            m = km.build(sd, nw=2 if spinful else 3, keys=keys, spinful=spinful, tr=(sym == "TR"), inv=(sym == "Inv"))
+            m = km.build(sd, nw=2 if spinful else 3, dim=dim, keys=keys, spinful=spinful, tr=(sym == "TR"), inv=(sym == "Inv"))
             system = m.system()
             if doubled:
                 system.double_spin()
             nb = system.num_wann
             r = np.random.RandomState(rng.randrange(1 << 30))
             done = 0
+            modelname = f"{sym}{'_spinful' if spinful else ''}{'_doubled' if doubled else ''}_{dim}d"
             for _ in range(40):
                 if done >= nk:
                     break
-                k = km.generic_k(r, dim=2)
+                k = km.generic_k(r, dim=dim)
                 if km.min_gap(m, k) < MINGAP:   # NonDegenerateK (of the undoubled model)
                     continue
                 done += 1
                 d1, d2 = datak(system, k), datak(system, -k)
                 if np.abs(d1.E_K - d2.E_K).max() > 1e-9:
                     raise MachineryError(f"model is not {sym}-symmetric: E(k) != E(-k)")
-                for e in reg:
+                for e in reg + extra:
+                    unl = bool(e.get("unlisted"))
                     if e["spin"] and not spinful:
                         continue
-                    with quiet():
-                        o1, o2 = e["make"](d1), e["make"](d2)
-                        vals1, vals2 = values(e, o1, nb, doubled), values(e, o2, nb, doubled)
+                    try:
+                        with quiet():
+                            o1 = e["make"](d1)
+                    except Exception as ex:  # noqa
+                        if unl:
+                            interm.setdefault(e["label"], "cannot be built from a Data_K alone")
+                            continue
+                        site = lib_raised(ex)
+                        if site is None:
+                            raise MachineryError(f"cannot build {e['label']}: {ex}")
+                        rep.violation(f"raises:{e['name']}:{type(ex).__name__}", dict(formula=e["label"], model=m.dump(), k=k.tolist(), raised_in=site, error=str(ex)[:300]))
+                        continue
+                    if unl and (getattr(o1, "transformTR", None) is None or getattr(o1, "transformInv", None) is None):
+                        interm.setdefault(e["label"], "no declaration")
+                        continue
+                    try:
+                        with quiet():
+                            o2 = e["make"](d2)
+                            vals1, vals2 = values(e, o1, nb, doubled), values(e, o2, nb, doubled)
+                    except Exception as ex:  # noqa
+                        if unl:
+                            interm.setdefault(e["label"], f"values cannot be taken: {type(ex).__name__}")
+                            continue
+                        site = lib_raised(ex)
+                        if site is None:
+                            raise
+                        rep.violation(f"raises:{e['name']}:{type(ex).__name__}", dict(formula=e["label"], model=m.dump(), k=k.tolist(), raised_in=site, error=str(ex)[:300]))
+                        continue
                     t = get_transforms(e, o1)[0 if sym == "TR" else 1]
                     for (lab, v1), (_, v2) in zip(vals1, vals2):
-                        s, dev, scale = classify(t, v1, v2)
-                        modelname = f"{sym}{'_spinful' if spinful else ''}{'_doubled' if doubled else ''}"
+                        s, dev, scale, fdecl = classify(t, v1, v2)
                         rep.case(("num", e["label"], modelname, sd, tuple(k), lab), nontrivial=bool(s))
-                        if s is None or (s != 0 and s != t.factor):
+                        bad = s is None or (s != 0 and s != fdecl)
+                        if unl and e["name"] in INTERMEDIATE:
+                            c = interm.setdefault(e["label"], dict(agree=0, disagree=0))
+                            if isinstance(c, dict):
+                                c["disagree" if bad else "agree"] += 1
+                            continue
+                        if bad:
                             variant = variant_tag(e)
                             failed.add((e["label"], sym))
                             rep.violation(f"parity_numeric:{sym}:{e['name']}{variant}",
                                           dict(formula=e["label"], symmetry=sym, model=m.dump(), doubled=doubled, k=k.tolist(), group=lab,
-                                               declared=tdesc(t), value_at_k=np.array(v1)[0].tolist() if np.isrealobj(v1) else str(np.array(v1)[0].tolist()),
+                                               declared_effect=effect_desc(t, np.asarray(v1).ndim - 1, np.iscomplexobj(v1)),
+                                               value_at_k=np.array(v1)[0].tolist() if np.isrealobj(v1) else str(np.array(v1)[0].tolist()),
                                                value_at_minus_k=np.array(v2)[0].tolist() if np.isrealobj(v2) else str(np.array(v2)[0].tolist()),
-                                               measured_sign=s, deviation=dev, tolerance=TOL * scale))
+                                               measured_sign=s, deviation=dev, tolerance=TOL * scale, unlisted_class=unl))
                         if s == 0:
                             nclass["small"] += 1
                         elif s is not None:
                             nclass["plus" if s > 0 else "minus"] += 1
                             worst = max(worst, dev / scale)
-                            signs.setdefault((e["name"], e["label"], sym), set()).add(s)
+                            if not bad:
+                                (usigns if unl else signs).setdefault((e["name"], e["label"], sym), set()).add((s, fdecl))
+                # the result of every dynamic calculator (complex, with its frequency factors) at -k and at k
+                if not doubled:
+                    E = np.sort(d1.E_K[0])
+                    # Fermi levels near (not at: strict comparisons of the calculators) band energies, so that Fermi-surface terms are sizeable
+                    Ef = np.array([E[0] + 0.0131, 0.5 * (E[0] + E[1]), E[-1] - 0.0173])
+                    om = np.array([0.7, 1.9])
+                    for cn, cc, fname in calc_objs:
+                        if "SHC" in cn and not spinful:
+                            continue
+                        try:
+                            calc = make_calculator(cc, Ef, om)
+                            with quiet():
+                                r1, r2 = calc(d1), calc(d2)
+                            t = r1.transformTR if sym == "TR" else r1.transformInv
+                            a, b, rank = np.asarray(r1.data), np.asarray(r2.data), int(r1.rank)
+                        except Exception as ex:  # noqa
+                            site = lib_raised(ex)
+                            if site is None:
+                                skipped["calculator_call:" + cn] = f"{type(ex).__name__}: {ex}"[:200]
+                            else:
+                                rep.violation(f"raises:calculator:{cn}:{type(ex).__name__}", dict(calculator=cn, model=m.dump(), k=k.tolist(), raised_in=site, error=str(ex)[:300]))
+                            continue
+                        variant = calculator_variant(calc)
+                        if (cn, sym) not in calc_decl_done:
+                            calc_decl_done.add((cn, sym))
+                            s_ = table[fname]
+                            want = table_desc(s_["dTR" if sym == "TR" else "dInv"], True)
+                            have = effect_desc(t, rank, True)
+                            rep.case(("calc_decl", cn, sym))
+                            if have != want:
+                                rep.violation(f"declared_transform:{fname}", dict(calculator=cn, symmetry=sym, note="transformation attached to the calculator's result",
+                                                                                 expected_effect=want, got_effect=have))
+                            recs.append(dict(kind="decl1", name=fname, label="calculator:" + cn, sym=sym, t=tdesc_state(s_["dTR" if sym == "TR" else "dInv"]) if have == want else have))
+                        # data axes: (Efermi, omega, tensor...): fold the two energy axes into one leading axis
+                        a2, b2 = a.reshape((-1,) + (3,) * rank), b.reshape((-1,) + (3,) * rank)
+                        s, dev, scale, fdecl = classify(t, a2, b2, relative=True)
+                        ncalc += 1
+                        rep.case(("calc", cn, modelname, sd, tuple(k)), nontrivial=bool(s))
+                        if s is None or (s != 0 and s != fdecl):
+                            failed.add(("calculator:" + cn, sym))
+                            rep.violation(f"parity_numeric:{sym}:{fname}{variant}",
+                                          dict(calculator=cn, symmetry=sym, model=m.dump(), k=k.tolist(), Efermi=Ef.tolist(), omega=om.tolist(), kBT=0.1, smr_fixed_width=0.3,
+                                               declared_effect=effect_desc(t, rank, True), measured_sign=s, deviation=dev, tolerance=TOL * scale,
+                                               note="result of the calculator at -k versus the declared transformation of its result at k"))
+                        elif s:
+                            worst = max(worst, dev / scale)
+                            signs.setdefault((fname, "calculator:" + cn, sym), set()).add((s, fdecl))
                 if done == 1 and isd == 0:
-                    rep.sample(dict(fn="value(-k) vs T(value(k))", symmetry=sym, spinful=spinful, doubled=doubled, model_seed=sd, k=k.tolist()))
+                    rep.sample(dict(fn="value(-k) vs T(value(k))", symmetry=sym, spinful=spinful, doubled=doubled, dim=dim, model_seed=sd, k=k.tolist()))
             if done < nk:
                 raise MachineryError("no non-degenerate k-point found")
-    rep.part("numeric_only", classified=nclass, max_relative_deviation=worst, tolerance=TOL)
+    rep.part("numeric_only", classified=nclass, max_relative_deviation=worst, tolerance=TOL, calculator_results_compared=ncalc,
+             unlisted_formula_classes_measured=sorted({k[0] for k in usigns}))
+    rep.part("intermediate_formulas", note="formula classes outside the catalogue that are mixed-parity intermediates or cannot be measured: information only",
+             **{k: v for k, v in interm.items()})
     # every formula variant must have been measured with a definite sign under both symmetries
-    unmeasured = [(e["label"], sym) for e in reg for sym in ("TR", "Inv") if (e["name"], e["label"], sym) not in signs and e["name"] not in ("Identity", "Formula_dyn_ident") ]
+    unmeasured = [(e["label"], sym) for e in reg for sym in ("TR", "Inv") if (e["name"], e["label"], sym) not in signs and e["name"] not in ("Identity", "Formula_dyn_ident")]
     unmeasured = [u for u in unmeasured if u not in failed]
     if unmeasured:
         raise MachineryError(f"vacuous: no significant value measured for {unmeasured[:6]}")
+    if calc_objs and ncalc == 0:
+        raise MachineryError("vacuous: no calculator result compared")
     for (name, label, sym), ss in sorted(signs.items()):
-        for s in sorted(ss):
+        for s, f in sorted(ss):
             recs.append(dict(kind="sign", name=name, label=label, sym=sym, sign=int(s)))
+    for (name, label, sym), ss in sorted(usigns.items()):
+        for s, f in sorted(ss):
+            recs.append(dict(kind="usign", name=name, label=label, sym=sym, sign=int(s), declared=int(f)))
 
-    # ------------------------------------------------------------ code -> spec
-    stv, bad = ftable.validate_records("ParityAlgRec.tla", ftable.REC_CFG, recs, "c08")
+    # ------------------------------------------------------------ code -> spec  (the corrupted records of the self-test ride along)
+    def pick(pred, what):
+        for x in recs:
+            if pred(x):
+                return copy.deepcopy(x)
+        raise MachineryError(f"self-test record missing: {what}")
+    b1 = pick(lambda x: x["kind"] == "decl" and x["name"] == "DerOmega", "decl DerOmega")
+    b1["inv"]["factor"] = 1
+    b2 = pick(lambda x: x["kind"] == "sign" and x["name"] == "Omega" and x["sym"] == "TR", "sign Omega TR")
+    b2["sign"] = 1
+    b3 = pick(lambda x: x["kind"] == "cov" and x["name"] == "SS" and x["commader"] == 1, "cov SS")
+    b3["tr"]["factor"] = -1
+    b4 = pick(lambda x: x["kind"] == "decl1", "calculator declaration")
+    b4["t"]["factor"] = -b4["t"]["factor"]
+    corrupt = [b1, b2, b3, b4]
+    stv, bad = ftable.validate_records("ParityAlgRec.tla", ftable.REC_CFG, recs + corrupt, "c08" + TAG)
     rep.add_tlc("c08_records", stv)
     rep.add_traces(len(recs))
-    for i, clauses in bad.items():
-        r = recs[i]
-        rep.violation(f"recorded_{r['kind']}:{r['name']}:{clauses[0]}", dict(record=r, failing_clauses=clauses))
-    # binding self-test
-    b1 = copy.deepcopy([r for r in recs if r["kind"] == "decl" and r["name"] == "DerOmega"][:1])
-    b1[0]["inv"]["factor"] = 1
-    b2 = copy.deepcopy([r for r in recs if r["kind"] == "sign" and r["name"] == "Omega" and r["sym"] == "TR"][:1])
-    if not b1 or not b2:
-        raise MachineryError("self-test records missing")
-    b2[0]["sign"] = 1
-    b3 = copy.deepcopy([r for r in recs if r["kind"] == "cov" and r["name"] == "SS" and r["commader"] == 1][:1])
-    b3[0]["tr"]["factor"] = -1
-    _, bb = ftable.validate_records("ParityAlgRec.tla", ftable.REC_CFG, b1 + b2 + b3, "c08_selftest")
-    if set(bb) != {0, 1, 2}:
-        raise MachineryError(f"binding self-test failed: corrupted records accepted ({bb})")
-    rep.part("binding_selftest", corrupted_records_rejected={str(k): v for k, v in bb.items()})
+    for i, clauses in sorted(bad.items()):
+        if i < len(recs):
+            r = recs[i]
+            rep.violation(f"recorded_{r['kind']}:{r['name']}:{clauses[0]}", dict(record=r, failing_clauses=clauses))
+    if not all(len(recs) + n in bad for n in range(len(corrupt))):
+        raise MachineryError(f"binding self-test failed: corrupted records accepted ({ {k: v for k, v in bad.items() if k >= len(recs)} })")
+    rep.part("binding_selftest", corrupted_records_rejected={str(k - len(recs)): v for k, v in bad.items() if k >= len(recs)})
+    if skipped:
+        rep.part("skipped_private", **{str(k).replace(" ", "_"): v for k, v in skipped.items()})
     return rep.finish()
